@@ -570,7 +570,12 @@ def module(repo, name):
     key = (repo, name)
     if key not in _M:
         full = 'dtaidistance.' + (name[:-4] if name.endswith('_pxd') else name)
-        _M[key] = load(repo, PYX[name], full)
+        mod = load(repo, PYX[name], full)
+        from .canon import canon_body
+        for f in mod.funcs.values():
+            if f.body is not None:
+                f.body = canon_body(f.body)
+        _M[key] = mod
     return _M[key]
 
 
